@@ -1,5 +1,6 @@
 """C10 — layout is insignificant: whitespace and comments never change meaning (mechanism integrity)."""
 import json
+import re
 
 from ..guards import ne, sh
 from ..panics import label_names
@@ -162,6 +163,32 @@ def r5_parentheses_add_no_node(ctx):
                 ctx.bad("paren|allocates-node", pe.where(allocs[0].block), "the `(` arm allocates an AST node: redundant parentheses change the tree")
             else:
                 ctx.ok("paren|no-node", pe.where(tgt), "the `(` arm returns the inner expression itself")
+            inner = [c for c in pe.calls() if c.block in region and c.callee == pe.id]
+            if inner and all(c.args[1].get("int") == 0 for c in inner):
+                ctx.ok("paren|inner-bp", pe.where(inner[0].block), "the group's content is parsed from binding power 0")
+            else:
+                ctx.bad("paren|inner-bp", pe.where(tgt), "the content of a parenthesised group is not parsed from binding power 0 (%s)" % [sh(ne(pe.deep(c.args[1]))) for c in inner])
+    # the operand produced by any prefix arm - a parenthesised group included - continues with the binding power of the
+    # *enclosing* call: a group is one operand, `a op (b) op c` must group like `a op b op c`
+    CONT = "syntax::parser::Parser::parse_expression_continuation"
+    conts = [c for c in pe.calls() if c.callee == CONT]
+    for c in conts:
+        bp = sh(ne(pe.deep(c.args[2])))
+        ordn = sum(1 for r in ctx.records if r["rule"] == ctx.rule and r["instance"].startswith("continuation|"))
+        if bp == "min_bp":
+            ctx.ok("continuation|min_bp#%d" % (ordn + 1), pe.where(c.block), "operand continues with the caller's binding power")
+        else:
+            ctx.bad("continuation|bp|%s" % bp[:20], pe.where(c.block), "parse_expression continues an operand with binding power `%s` instead of its own min_bp: after that operand (e.g. a parenthesised group) the enclosing operator's precedence is forgotten, so redundant parentheses regroup the expression" % bp)
+    ctx.floor("operand continuations in parse_expression", len(conts), 1)
+    rets = pe.whole_defs(0)
+    def from_cont(k, st):
+        if k == "t":
+            return (st.get("res") or st.get("callee")) == CONT
+        return re.match(r"^[&*(]*parse_expression_continuation\(", sh(ne(pe.deep_rvalue(st["rv"])))) is not None
+    if rets and all(from_cont(k, st) for (bi, k, st) in rets):
+        ctx.ok("continuation|every-return", pe.where(rets[0][0]), "every result of parse_expression comes out of parse_expression_continuation")
+    else:
+        ctx.bad("continuation|every-return", pe.where(), "parse_expression has a result that does not pass through the shared continuation (%d definitions of the return place)" % len(rets))
 
 
 RULES = [("C10-R1", r1_one_whitespace_predicate), ("C10-R2", r2_tokens_carry_no_layout), ("C10-R3", r3_parser_sees_only_tokens),
